@@ -64,6 +64,17 @@ def renamed_base():
     return [rename(p, tmap, imap) for p in space.enumerate_programs(2, 3)]
 
 
+def classics():
+    """Everyday programs that are larger than the enumerated bounds: matrix product, chained
+    contraction, sum of two contractions (buckets below sparse output levels, nested contractions)."""
+    T = lambda n, *idx: ("t", n, tuple(idx))  # noqa: E731
+    return [
+        ("a", ("i", "j"), ("*", T("b", "i", "k"), T("c", "k", "j"))),
+        ("a", ("i",), ("*", ("*", T("b", "i", "j"), T("c", "j", "k")), T("d", "k"))),
+        ("a", ("i",), ("+", ("*", T("b", "i", "j"), T("c", "j")), ("*", T("d", "i", "k"), T("e", "k")))),
+    ]
+
+
 def dedupe(progs):
     seen = set()
     out = []
@@ -81,6 +92,9 @@ def programs(tier: str, flavour: str = "full"):
     if flavour == "light":
         progs = P(2, 3) + P(2, 4, min_total_order=4, repeats=False, ops="+*") + P(3, 2, ops="+*", min_leaves=3)
         progs += P(2, 2, literals=("2",), min_leaves=2, repeats=False)
+        progs += classics()
+        # an order-3 copy and a cyclic transpose: the only order-3 sparse outputs of this space
+        progs += [("a", ("i", "j", "k"), ("t", "b", ("i", "j", "k"))), ("a", ("i", "j", "k"), ("t", "b", ("k", "i", "j")))]
     elif flavour == "full":
         progs = P(2, 4)
         progs += P(3, 3, min_leaves=3, repeats=False)
@@ -91,6 +105,7 @@ def programs(tier: str, flavour: str = "full"):
         # 4-leaf products of two sums, each with a term that lacks a contracted index (128 programs)
         progs += products_of_partial_sums()
         progs += renamed_base()
+        progs += classics()
     else:
         progs = P(2, 5)
         progs += P(3, 4, min_leaves=3)
@@ -101,6 +116,7 @@ def programs(tier: str, flavour: str = "full"):
         progs += P(1, 6, min_total_order=6)
         progs += products_of_partial_sums()
         progs += renamed_base()
+        progs += classics()
     # literals whose int32 lowering overflows: 65536 * 65536, 2^32 (the shortcut in identifiable_expression/_to_ir.py)
     progs += P(3, 1, literals=("65536",), min_leaves=3, ops="*", repeats=False, target_orders=(0, 1))
     progs += P(2, 1, literals=("4294967296", "99999999999"), min_leaves=2, ops="*+", repeats=False, target_orders=(0, 1))
@@ -111,8 +127,8 @@ def programs(tier: str, flavour: str = "full"):
 
 def describe(tier, flavour):
     return {
-        "light": "L<=2,S<=3; L=2,S=4 (+,*; no repeats); L=3,S<=2 (+,*); literal 2 with L=2,S<=2; int32-overflowing literals",
-        "full": "L<=2,S<=4 all shapes incl. repeated tensors; L=3,S<=3; literals {0,2,2.5} with L<=2,S<=3 and {2} with "
+        "light": "an order-3 copy and a cyclic transpose; matrix product, chained contraction and sum of two contractions in all formats; L<=2,S<=3; L=2,S=4 (+,*; no repeats); L=3,S<=2 (+,*); literal 2 with L=2,S<=2; int32-overflowing literals",
+        "full": "matrix product, chained contraction and sum of two contractions in all formats; L<=2,S<=4 all shapes incl. repeated tensors; L=3,S<=3; literals {0,2,2.5} with L<=2,S<=3 and {2} with "
                 "L=3,S<=2; all order-3 copies/transposes (L=1,S=6); the 128 4-leaf products of partial sums "
                 "(b() + c(i)) * (d() + e(i)); the L<=2,S<=3 space again under a reversed naming (z = y.., i<->k); "
                 "int32-overflowing literals",
